@@ -1,1 +1,90 @@
-//! placeholder
+//! C19 (decidable part) — the back-off generator as parameterised at the client's call site.
+//!
+//! `callsite::{INITIAL_MS, MULT}` are extracted by the driver from the CURRENT
+//! `penguin/src/client/mod.rs` (`Backoff::new(Duration::from_millis(..), .., <mult>, ..)`);
+//! the expected schedule is the property's: min(200 ms x 2^k, max_retry_interval), `None`
+//! exactly after `max_retry_count` advances (never if it is 0), reset restores the start.
+use core::time::Duration;
+use penguin_mux::timing::Backoff;
+
+include!("callsite.rs");
+
+fn expected(k: u32, max: Duration) -> Duration {
+    // 200 ms * 2^k, saturating well above any Duration the generator can reach in 16 steps
+    let ms: u64 = 200u64 << k;
+    let d = Duration::from_millis(ms);
+    if d < max { d } else { max }
+}
+
+/// K consecutive failures, then a reset (successful connection), then one more failure.
+fn schedule<const K: u32>() {
+    let max_ms: u64 = kani::any();
+    let max_count: u32 = kani::any();
+    let max = Duration::from_millis(max_ms);
+    let mut b = Backoff::new(Duration::from_millis(callsite::INITIAL_MS), max, callsite::MULT, max_count);
+    let mut k = 0;
+    while k < K {
+        let got = b.advance();
+        if max_count != 0 && k >= max_count {
+            assert!(got.is_none(), "P:C19 back-off keeps retrying after max_retry_count consecutive failures");
+        } else {
+            match got {
+                None => panic!("P:C19 back-off gives up before max_retry_count failures (or although it is 0)"),
+                Some(d) => assert!(d == expected(k, max), "P:C19 k-th delay is not min(200 ms * 2^k, max_retry_interval)"),
+            }
+        }
+        k += 1;
+    }
+    kani::cover!(max_count != 0 && K > max_count, "?give-up reachable");
+    kani::cover!(max_count == 0 || K <= max_count, "?all delays produced");
+    // a successful connection resets the generator
+    b.reset();
+    let got = b.advance();
+    match got {
+        None => panic!("P:C19 back-off gives up right after a reset"),
+        Some(d) => assert!(d == expected(0, max), "P:C19 delay after a successful connection is not the shortest one"),
+    }
+    kani::cover!(true, "schedule evaluated");
+}
+
+/// Small generic tuples (initial, max, mult, max_count): same law with arbitrary parameters
+/// in whole milliseconds.
+fn generic<const K: u32>() {
+    let init_ms: u16 = kani::any();
+    let max_ms: u16 = kani::any();
+    let mult: u8 = kani::any();
+    let max_count: u8 = kani::any();
+    kani::assume(mult >= 1 && mult <= 4);
+    let max = Duration::from_millis(max_ms as u64);
+    let mut b = Backoff::new(Duration::from_millis(init_ms as u64), max, mult as u32, max_count as u32);
+    let mut cur: u64 = init_ms as u64;
+    let mut k = 0;
+    while k < K {
+        let got = b.advance();
+        let want = if cur < max_ms as u64 { cur } else { max_ms as u64 };
+        if max_count != 0 && k >= max_count as u32 {
+            assert!(got.is_none(), "P:C19 generic back-off keeps going after max_count");
+        } else {
+            assert!(got == Some(Duration::from_millis(want)), "P:C19 generic back-off: wrong k-th delay");
+        }
+        cur = want * mult as u64;
+        k += 1;
+    }
+    kani::cover!(true, "schedule evaluated");
+}
+
+macro_rules! h {
+    ($name:ident, $unwind:literal, $body:expr) => {
+        #[kani::proof]
+        #[kani::unwind($unwind)]
+        fn $name() {
+            $body
+        }
+    };
+}
+h!(c19_schedule_k1, 4, schedule::<1>());
+h!(c19_schedule_k3, 6, schedule::<3>());
+h!(c19_schedule_k6, 9, schedule::<6>());
+h!(c19_schedule_k12, 15, schedule::<12>());
+h!(c19_generic_k3, 6, generic::<3>());
+h!(c19_generic_k6, 9, generic::<6>());
